@@ -11,6 +11,7 @@ import ast
 import inspect
 import itertools
 import os
+import re
 import random
 import tempfile
 import textwrap as _textwrap
@@ -804,7 +805,10 @@ def wrapper_check(mods, sources) -> tuple[int, list[dict]]:
                         res.append(main.format_code(text, safe=safe, keep_imports=keep))
                 except Exception as e:  # noqa
                     res.append(f"<raised {type(e).__name__}>")
-            exp = res[1][:-1] if res[1].endswith("\n") and not res[1].startswith("<raised") else res[1]
+            # the appended line break is dropped again unless it ends a backslash continuation (repair F03-r5-1)
+            droppable = res[1].endswith("\n") and not res[1].startswith("<raised") and \
+                not re.search(r"\\(\r\n|\r|\n)\Z", res[1][:-1])
+            exp = res[1][:-1] if droppable else res[1]
             if res[0] != exp:
                 bad.append({"source": src, "safe": safe, "keep_imports": keep, "format_code(s)": res[0],
                             "format_code(s + LF)": res[1], "expected": exp})
